@@ -2007,6 +2007,22 @@ class UnicodeCategorySet(AbstractValue):
     def __repr__(self):
         return 'UnicodeCategorySet(%s)' % (self.prefix or sorted(self.categories))
 
+    _members = {}
+
+    def members(self):
+        """The characters themselves (the Unicode database of the analysing interpreter), when something enumerates
+        the set - sorting it into a regex character class, say."""
+        k = self.categories
+        if k not in UnicodeCategorySet._members:
+            UnicodeCategorySet._members[k] = frozenset(c for c in map(chr, range(sys.maxunicode + 1)) if unicodedata.category(c) in k)
+        return UnicodeCategorySet._members[k]
+
+    def abs_iter(self, interp):
+        return iter(sorted(self.members()))
+
+    def abs_len(self, interp):
+        return len(self.members())
+
 
 class CodePoints(AbstractValue):
     """(chr(i) for i in range(lo, hi)) over a large part of the code space: never unrolled."""
@@ -2021,6 +2037,12 @@ class CodePoints(AbstractValue):
 class UnionSet(AbstractValue):
     def __init__(self, parts):
         self.parts = parts
+
+    def abs_iter(self, interp):
+        out = set()
+        for p in self.parts:
+            out |= set(interp.iterate(p))
+        return iter(sorted(out))
 
     def abs_contains(self, interp, item):
         res = []
